@@ -18,6 +18,7 @@ from .. import revfake
 from ..gen_graph import gen_history, reachable_state
 
 PROPERTY = "C18"
+DRIVER = "drv_txn"
 THEOREMS = [
     "C18.framed_of_tddl",
     "C18.single_block_count",
